@@ -87,8 +87,10 @@ type pendingFlag struct {
 
 // analysePendingFlag follows the phi web of flag. anchor is the instruction the
 // flag protects; loop is the loop around it (nil: no loop, every non-constant
-// leaf is an init value).
-func analysePendingFlag(flag *ssa.Phi, anchor ssa.Instruction, loop *Loop) pendingFlag {
+// leaf is an init value). inCase (optional): the anchor's block is shared by
+// several cases (GuardCases) and the flag may be cleared only in blocks that
+// execute in the case looked at.
+func analysePendingFlag(flag *ssa.Phi, anchor ssa.Instruction, loop *Loop, inCase func(*ssa.BasicBlock) bool) pendingFlag {
 	pf := pendingFlag{Shape: true}
 	fail := func(why string) {
 		if pf.Shape {
@@ -117,7 +119,7 @@ func analysePendingFlag(flag *ssa.Phi, anchor ssa.Instruction, loop *Loop) pendi
 				switch {
 				case IsConstBool(x, false) && inLoop:
 					pf.Clear++
-					if !(ab == pred || ab.Dominates(pred)) {
+					if !(ab == pred || ab.Dominates(pred)) || (inCase != nil && !inCase(pred)) {
 						fail("the flag is cleared on a path that has not made the clone")
 					}
 				case inLoop:
@@ -528,6 +530,26 @@ func (r *Run) c10ReserveWithinQuota(rep *ssa.Function) {
 	r.Floor("paths through those assignments", nPaths, 4)
 }
 
+// c10Copy is one way reproduce duplicates the genome of Organisms[0]: the
+// duplicate call under ONE case of the reaching condition of its block
+// (GuardCases). The pinned tree has two calls with one case each; a body shared
+// by the super-champion turn and the species-champion clone (`if super ||
+// (!done && quota > 5) { dup; if !super {done = true} else if sco > 1 {mutate};
+// wrap; if super {..; sco--} }`) is one call with two cases.
+type c10Copy struct {
+	call   ssa.CallInstruction
+	guards []Guard // all outcomes that hold in this case (resolved)
+	own    []Guard // those that no dominating edge establishes: what tells this case from its siblings
+	super  bool    // the case implies superChampOffspring >= 1
+	label  string
+	within map[*ssa.BasicBlock]bool // the blocks of the offspring loop: cases are told apart per iteration
+}
+
+// onCase: can instruction u execute in the case cp? (fails open: what cannot be excluded is on the case)
+func (cp c10Copy) onCase(u ssa.Instruction) bool {
+	return len(cp.own) == 0 || mayBeInCase(u.Block(), cp.own, cp.within)
+}
+
 // ---- comparison facts, independent of spelling ----
 
 // c10Fact is a branch outcome stated as a comparison that HOLDS, `X Op Y`
@@ -597,16 +619,16 @@ func (f c10Fact) String() string { return "(" + f.TX.String() + f.Op.String() + 
 //	    deliver nothing and make the epoch fail, which is not a silent loss);
 //	    the list carried around the loop only grows by appends, and every
 //	    list returned is that list.
-func (r *Run) c10OffspringLoop(rep *ssa.Function, tm *Termer, newOrg *ssa.Function, copies map[string]ssa.CallInstruction) {
+func (r *Run) c10OffspringLoop(rep *ssa.Function, tm *Termer, newOrg *ssa.Function, copies []c10Copy) {
 	p := r.P
 	eo := p.Field(PkgG, "Species", "ExpectedOffspring")
 	isEO := func(t *Term) bool {
 		return t != nil && t.Op == "field" && t.Obj == eo && len(t.Args) == 1 && t.Args[0].Op == "recv"
 	}
 	var anchor ssa.CallInstruction
-	for _, k := range []string{"clone", "super-champ"} {
-		if copies[k] != nil && anchor == nil {
-			anchor = copies[k]
+	for _, cp := range copies {
+		if anchor == nil {
+			anchor = cp.call
 		}
 	}
 	if anchor == nil {
@@ -744,11 +766,8 @@ func (r *Run) c10OffspringLoop(rep *ssa.Function, tm *Termer, newOrg *ssa.Functi
 		r.Check(okRet, "offspring-loop.returns-babies", p.Pos(ret.Pos()), "the list returned is the list of babies", "reproduce returns a list that is not the list the offspring were appended to ("+w+"): the copy of the champion is not handed to the caller")
 	}
 	// the copy is appended on every continuing path
-	for _, k := range []string{"clone", "super-champ"} {
-		c := copies[k]
-		if c == nil {
-			continue
-		}
+	for _, cp := range copies {
+		c, k := cp.call, cp.label
 		var genome ssa.Value
 		for _, ref := range *c.Value().Referrers() {
 			if ex, ok := ref.(*ssa.Extract); ok && ex.Index == 0 {
@@ -760,7 +779,7 @@ func (r *Run) c10OffspringLoop(rep *ssa.Function, tm *Termer, newOrg *ssa.Functi
 		}
 		calls, _ := genomeUsers(genome)
 		for _, u := range calls {
-			if u.Common().StaticCallee() != newOrg || u.Value() == nil {
+			if u.Common().StaticCallee() != newOrg || u.Value() == nil || !cp.onCase(u) {
 				continue
 			}
 			var org ssa.Value
@@ -796,7 +815,7 @@ func (r *Run) c10OffspringLoop(rep *ssa.Function, tm *Termer, newOrg *ssa.Functi
 				}
 				return false
 			}
-			path := FindPath(p, PathQuery{Fn: rep, StartAfter: u.(ssa.Instruction),
+			path := FindPath(p, PathQuery{Fn: rep, StartAfter: u.(ssa.Instruction), Assume: cp.own,
 				Target: func(in ssa.Instruction) bool {
 					if in.Block() == loop.Header {
 						return true
